@@ -50,6 +50,12 @@ pub struct Ctx {
     /// under reduced budgets: maximum number of evaluations per case group (deterministic bound)
     pub cap: u64,
     group_start: u64,
+    /// under reduced budgets the case groups are striped over the shards: shard i runs every
+    /// group whose running index is congruent to i (all groups are covered across the shards,
+    /// in both assertion modes); disabled by --only and --no-stripe
+    stripe: bool,
+    group_index: usize,
+    skipped_groups: u64,
     pub out: Option<PathBuf>,
     pub rng: Rng,
     pub evals: u64,
@@ -115,6 +121,9 @@ impl Ctx {
                 _ => u64::MAX,
             }),
             group_start: 0,
+            stripe: matches!(budget, Budget::Miri | Budget::Memcheck) && nshards > 1 && arg_value(&args, "--only").is_none() && !args.iter().any(|a| a == "--no-stripe"),
+            group_index: 0,
+            skipped_groups: 0,
             out,
             rng: Rng::new(seed),
             evals: 0,
@@ -167,6 +176,14 @@ impl Ctx {
     pub fn group(&mut self, name: &str, f: impl FnOnce(&mut Ctx)) {
         if let Some(o) = &self.only {
             if !name.contains(o.as_str()) {
+                return;
+            }
+        }
+        if self.stripe {
+            let gi = self.group_index;
+            self.group_index += 1;
+            if gi % self.nshards != self.shard {
+                self.skipped_groups += 1;
                 return;
             }
         }
@@ -282,6 +299,7 @@ impl Ctx {
             "counters": self.counters,
             "notes": self.notes,
             "groups": self.groups,
+            "groups_left_to_other_shards": self.skipped_groups,
             "violations": viols,
             "wall_s": wall,
         });
